@@ -397,15 +397,15 @@ def plan(tier):
     for v in (g[2], g[0]):
         vv = dict(v, name=v["name"] + "-gw-sessions", ep_len=12)
         P.append((vv["name"], HE.gen_scenario(vv), "bfs", dict(depth=4 if tier == "thorough" else 3, budget=60000, hints=GW, variant=vv)))
-    members = [g[0], g[1], g[2], g[3]] if tier == "thorough" else [g[1], g[2]]
+    members = [g[0], g[1], g[2]] if tier == "thorough" else [g[1], g[2]]
     for v in members:
         cfg = HE.gen_scenario(v)
         P.append((v["name"], cfg, "bfs", dict(depth=2 if tier == "thorough" else 1, budget=60000)))
-        P.append((v["name"], cfg, "dev", dict(H=(2 * v["ep_len"] + 2) if tier == "thorough" else v["ep_len"] + 2, k=1,
+        P.append((v["name"], cfg, "dev", dict(H=(v["ep_len"] + 5) if tier == "thorough" else v["ep_len"] + 2, k=1,
                                                 core=tier != "thorough", core_names=OBS_CORE)))
     if tier == "thorough":
         v = g[2]
-        P.append((v["name"] + "-k2", HE.gen_scenario(v), "dev", dict(H=12, k=2, core=True, core_names=OBS_CORE)))
+        P.append((v["name"] + "-k2", HE.gen_scenario(v), "dev", dict(H=9, k=2, core=True, core_names=OBS_CORE)))
     P.append(("data_manipulation", HE.SHIPPED["data_manipulation"], "dev", dict(H=30 if tier == "thorough" else 8, k=1, reset_seed=None,
                                                                              core=tier != "thorough", core_names=OBS_CORE)))
     return P
